@@ -254,8 +254,12 @@ func (s *socket) onError(err error) {
 func (s *socket) schedulePing() {
 	s.pingIntervalTimer.Store(utils.SetTimeout(func() {
 		socket_log.Debug("writing ping packet - expecting pong within %dms", int64(s.server.Opts().PingTimeout()/time.Millisecond))
-		s.sendPacket(packet.PING, nil, nil, nil)
+		// the deadline is armed before the ping is handed over: sending it runs
+		// application listeners (flush, drain), and the pong of a fast client may be
+		// processed before they return; armed afterwards, the deadline of a ping
+		// that was already answered would be left running
 		s.resetPingTimeout()
+		s.sendPacket(packet.PING, nil, nil, nil)
 	}, s.server.Opts().PingInterval()))
 }
 
